@@ -139,6 +139,24 @@ func elfCase(raw json.RawMessage, c *ecase, idx int) {
 		}
 		phdrs = append(phdrs, elf.ProgHeader{Type: elf.PT_LOAD, Flags: fl, Off: s.Off, Vaddr: s.Vaddr, Filesz: s.Filesz, Memsz: s.Memsz})
 	}
+	// the formula proved for unbounded integers in ElfBase.tla (Apalache) is the one the code evaluates:
+	// GetBase with the owning (executable) segment must return the load bias exactly
+	for k, s := range c.Layout {
+		if !s.X {
+			continue
+		}
+		typ := elf.ET_EXEC
+		if c.Type == "DYN" {
+			typ = elf.ET_DYN
+		}
+		base, err := elfexec.GetBase(&elf.FileHeader{Type: typ}, &phdrs[k], nil, c.MapStart+shift, c.MapLimit+shift, c.MapOff)
+		run.Count(fmt.Sprintf("getbase|%s|%d|%d|%d", c.Type, len(c.Layout), c.MapStart-c.Bias, c.MapOff))
+		if err != nil {
+			run.Violate("elf", sigOf(c, "getbase-error"), err.Error(), raw, nil)
+		} else if base != c.Bias+shift {
+			run.Violate("elf", sigOf(c, "getbase-not-bias"), fmt.Sprintf("GetBase(start=%#x, offset=%#x, segment off=%#x vaddr=%#x) = %#x, the load bias is %#x", c.MapStart+shift, c.MapOff, s.Off, s.Vaddr, base, c.Bias+shift), raw, nil)
+		}
+	}
 	hs := elfexec.ProgramHeadersForMapping(phdrs, c.MapOff, c.MapLimit-c.MapStart)
 	found := false
 	for _, h := range hs {
